@@ -1532,6 +1532,7 @@ pub fn generate(pop: &str, seed: u64, run: u64) -> Option<Trace> {
             cfg.cap = *rng.pick(&[None, Some(64)]);
             cfg.weigher = false;
             cfg.hasher = *rng.pick(&[HashMode::Fixed, HashMode::Fixed, HashMode::Collide1, HashMode::Collide2]);
+            cfg.shards = *rng.pick(&[None, None, Some(2usize), Some(8), Some(16)]);
             let nkeys = rng.range(1, 6) as u16;
             for k in 0..nkeys {
                 prologue.push(OpRec::plain(Op::Insert { k, vid: next_vid, w: 1 }));
@@ -1755,6 +1756,7 @@ pub fn generate(pop: &str, seed: u64, run: u64) -> Option<Trace> {
             // evict (not only update): C16's "never an expired or invalidated entry", C08, C09
             cfg.cap = *rng.pick(&[None, None, Some(3), Some(4), Some(64)]);
             cfg.hasher = *rng.pick(&[HashMode::Fixed, HashMode::Fixed, HashMode::Collide1, HashMode::Collide2]);
+            cfg.shards = *rng.pick(&[None, None, Some(2usize), Some(8), Some(16)]);
             match rng.below(4) {
                 0 => {
                     cfg.ttl = Some(*rng.pick(&[1u64, SEC]));
@@ -1892,6 +1894,14 @@ pub fn generate(pop: &str, seed: u64, run: u64) -> Option<Trace> {
             }
         }
         _ => return None,
+    }
+    // shard amount of the DashMap: a separate stream, so that the programs and schedules a
+    // seed generates do not depend on it
+    if matches!(pop, "thr-mixed" | "thr-strict" | "thr-expiry" | "thr-warm" | "thr-inval") {
+        let mut r2 = Prng::new(mix(sub, 77, 0));
+        if r2.chance(1, 3) {
+            cfg.shards = Some(*r2.pick(&[2usize, 8, 16]));
+        }
     }
     let total: usize = threads.iter().map(|t| t.len()).sum();
     let cfg_weigher = cfg.weigher;
